@@ -41,6 +41,7 @@ Inductive outcome :=
 Definition K_FUEL : Z := 0.        (* model artefact, excluded by the theorems (fuel = length of the input) *)
 Definition K_RECURSION : Z := 1.   (* RecursionError *)
 Definition K_VALUE : Z := 2.       (* IndexError / ValueError of a value decoder re-raised by the walk *)
+Definition K_ATTRIBUTE : Z := 3.   (* AttributeError: Advisory.__init__ calls .encode on the memoryview slice it is given *)
 Definition K_UNMODELLED : Z := 99. (* the concrete value decoder below does not model this attribute code *)
 
 (* ------------------------------------------------------------------ UPDATE: the three sections *)
@@ -155,13 +156,15 @@ Section Walk.
       match hdr data with
       | None => stop (WOk seen true)                  (* IndexError -> TreatAsWithdraw, return self *)
       | Some (flag, aid, length, body) =>
-        if OVERRUN_STOPS && (len body <? length) then stop (WOk seen true)
+        let n := Z.to_nat length in
+        let attribute := firstn n body in                           (* attribute = data[:length] *)
+        (* `len(data) < length`, read off the slice (it is shorter than asked exactly then) *)
+        if OVERRUN_STOPS && (len attribute <? length) then stop (WOk seen true)
         else
         match fuel with
         | O => stop (WPyError K_FUEL)
         | S k =>
-          let n := Z.to_nat length in
-          match act seen taw flag aid length (firstn n body) with   (* attribute = data[:length] *)
+          match act seen taw flag aid length attribute with
           | AStop o => stop o
           | ACont seen' taw' => bump (walk_f k seen' taw' (skipn n body))   (* left = data[length:] *)
           end
@@ -387,7 +390,7 @@ Definition dec_refresh (b : bytes) : outcome :=
 Definition op_category (what : Z) : Z :=
   match find (fun e => fst e =? what) operational_table with Some e => snd e | None => 0 end.
 
-(* Operational.unpack_message: Decoded = the category (0 = UnknownOperational) *)
+(* Operational.unpack_message on the memoryview the reader delivers: Decoded = the category (0 = UnknownOperational) *)
 Definition dec_operational (b : bytes) : outcome :=
   if len b <? 4 then Refused 5 0
   else
@@ -397,7 +400,9 @@ Definition dec_operational (b : bytes) : outcome :=
     else
       let cat := op_category what in
       let needed := if cat =? 1 then 7 else if cat =? 2 then 15 else if cat =? 3 then 19 else 0 in
-      if len b <? needed then Refused 5 0 else Decoded cat.
+      if len b <? needed then Refused 5 0
+      else if (cat =? 1) && negb ADVISORY_ACCEPTS_BUFFER then PyError K_ATTRIBUTE
+      else Decoded cat.
 
 (* ------------------------------------------------------------------ Message.unpack *)
 
